@@ -1,4 +1,5 @@
-import Mutagen.Proofs.RsyncWF
+import Mutagen.Proofs.RsyncRecon
+import Mutagen.Proofs.RsyncTransmit
 /-!
 # C20 — rsync transfers report every transmission failure
 
@@ -51,6 +52,22 @@ theorem deltify_reports_failure (fails : Nat → Bool) (target : List UInt8) (si
   · simp [hx] at hok
   · obtain ⟨h1, h2, _⟩ := scripted_log_ok fails (plan H target sig maxDataOpSize).1 (by simpa using hx)
     exact ⟨h1, h2⟩
+
+/-- **Either the sender returns an error or the receiver has obtained exactly
+the target data**: for every failure script, base, target, block size `> 0` and
+size limit, if `Deltify` (against the base's signature) returns success then
+patching the base with the operations the transmitter accepted yields the
+target — under the no-collision hypothesis of C19. -/
+theorem deltify_ok_receiver_has_target (fails : Nat → Bool) (base target : List UInt8)
+    (blockSize : Nat) (hbs : 0 < blockSize) (maxDataOpSize : Nat)
+    (hnc : NoCollision H base blockSize target)
+    (hok : (deltify (Tx.transmit fails) H true target (signature H base blockSize) maxDataOpSize
+      Tx.empty).2 = .ok) :
+    patchBytes base (signature H base blockSize)
+      (deltify (Tx.transmit fails) H true target (signature H base blockSize) maxDataOpSize
+        Tx.empty).1.delivered = some target := by
+  rw [(deltify_reports_failure H fails target _ maxDataOpSize hok).2]
+  exact reconstruct H base target blockSize hbs maxDataOpSize hnc
 
 /-- Success is reported exactly when no transmission of the plan fails. -/
 theorem deltify_ok_iff_no_failure (fails : Nat → Bool) (target : List UInt8) (sig : Signature D)
@@ -107,6 +124,24 @@ theorem transmit_reports_failure (fails : Nat → Bool) (finalizeFails : Bool)
     intro e he
     have := hall (by simp [RxAllOk, Rx.empty])
     exact this e (by simpa [Rx.log] using he)
+  · simp [hl] at hok
+
+/-- **When `Transmit` reports success the receiver has obtained the complete
+stream**: exactly, in order and each accepted — for every openable file the
+operations of its delta (the first carrying the file size as expected size)
+followed by a done message, for every unopenable file a done message with an
+error. -/
+theorem transmit_delivers_everything (fails : Nat → Bool) (finalizeFails : Bool)
+    (files : List (Option (List UInt8))) (sigs : List (Signature D))
+    (hok : (transmit H true fails finalizeFails files sigs).2 = false) :
+    (transmit H true fails finalizeFails files sigs).1.log =
+      (expectedMsgs H (files.zip sigs)).map (·, true) := by
+  unfold transmit at hok ⊢
+  by_cases hl : files.length = sigs.length
+  · simp only [hl, ne_eq, not_true_eq_false, if_false] at hok ⊢
+    unfold Rx.log
+    rw [transmitLoop_log H fails finalizeFails (files.zip sigs) Rx.empty hok]
+    simp [Rx.empty]
   · simp [hl] at hok
 
 /-- On every path — success, failed `Receive`, unopenable file, mismatched
